@@ -12,7 +12,7 @@ vars == <<w, src, edits, loaded>>
 
 Base == [port |-> 8686, batch_size |-> Absent, fault_percentage |-> Absent, num_workers |-> Absent,
          status_interval |-> Absent, health_check_port |-> Absent, seed |-> "ok", interface |-> "ok",
-         client_stats |-> "absent", persistence_directory |-> "absent", unknown_key |-> FALSE]
+         client_stats |-> "absent", persistence_directory |-> "absent", unknown_key |-> FALSE, multidoc |-> FALSE]
 
 Init == w = Base /\ src \in {"file", "env"} /\ edits = 0 /\ loaded = FALSE
 
@@ -23,6 +23,7 @@ EditOther == \/ \E s \in {"short", "long", "nonhex", "missing", "odd", "digits",
              \/ \E c \in {"on", "yes", "off"} : w.client_stats # c /\ w' = [w EXCEPT !.client_stats = c]
              \/ (w.persistence_directory = "absent" /\ w' = [w EXCEPT !.persistence_directory = "dir"])
              \/ (src = "file" /\ ~w.unknown_key /\ w' = [w EXCEPT !.unknown_key = TRUE])
+             \/ (src = "file" /\ ~w.multidoc /\ w' = [w EXCEPT !.multidoc = TRUE])
 
 Edit == /\ ~loaded /\ edits < MaxEdits /\ (EditInt \/ EditOther)
         /\ edits' = edits + 1 /\ UNCHANGED <<src, loaded>>
